@@ -58,7 +58,8 @@ def main():
             if transport == "sdo":
                 for init in ("SWITCH ON DISABLED", "READY TO SWITCH ON", "SWITCHED ON", "OPERATION ENABLED", "FAULT"):
                     for target in STATES[1:6]:
-                        for lag in ((76, 82, 86, 92) if args.tier == "quick" else range(70, 110, 2)):
+                        # (every lag around the single-step time-out: the window of F29 was lag 84 only)
+                        for lag in (range(78, 92) if args.tier == "quick" else range(60, 120)):
                             cases.append({"kind": "state", "init": init, "targets": [target], "auto_after": 0,
                                           "lag": lag, "extra": False, "transport": transport})
             # a fault whose cause persists for the first reset attempts
@@ -115,7 +116,7 @@ def main():
             k = r["ev"][-1]["e"] + (":" + r["ev"][-1].get("cls", "") if r["ev"][-1]["e"] == "raise" else "")
             outcome[k] = outcome.get(k, 0) + 1
     cov = {"states": mc.distinct, "transitions": mc.generated, "traces_validated_against_impl": val.traces,
-           "samples": [results[5]["ev"][:8]], "trace_events": val.events, "model_scenarios": len(scen),
+           "samples": [results[min(5, len(results) - 1)]["ev"][:8]], "trace_events": val.events, "model_scenarios": len(scen),
            "statusword_table_rows": len(rows), "bad_rows": len(bad), "outcomes": outcome,
            "original_algorithm_counterexample_found": not guard.ok, "rejected": len(val.rejects)}
     return v.finish("model_checking", cov, [
